@@ -813,6 +813,31 @@ def run(ctx):
                 r.bad("add_parents|cache", "add_parents can return a cached parent matcher built for another root without touching "
                       "absolute_base: with several roots under one parent, that parent's anchored ignore rules are matched "
                       "against paths re-based under the first root", fn=f, construct="absolute_base")
+    with ctx.rule("C05.GLOBROOT", "the -g / --pre-glob override matchers are rooted at the working directory", floor=3, kind="WIRE") as r:
+        # An override glob with a slash is anchored to the matcher's root, and Gitignore::strip only removes that root
+        # from a candidate path. Rooted anywhere but the process working directory, an anchored -g glob never matches
+        # a file reached through an absolute search root ("command-line globs override everything" stops holding).
+        OB = "ignore::overrides::OverrideBuilder::new"
+        HA = "rg::flags::hiargs::"
+        for name in ("globs", "preprocessor_globs"):
+            g = facts.fn(HA + name)
+            ebg = ExprBuilder(g)
+            cs = g.calls_to(OB)
+            if not cs:
+                r.bad("root|" + name, "anchor-missing: %s builds no OverrideBuilder" % name, fn=g)
+                continue
+            a_ = ebg.operand(cs[0].args[0])
+            if any(x.k == "field" and x[3] == "cwd" for x in walk(a_)) or mentions_call(a_, "std::env::current_dir", HA + "current_dir"):
+                r.ok("root|" + name, "OverrideBuilder::new(&state.cwd)", fn=g)
+            else:
+                r.bad("root|" + name, "%s roots the override matcher at `%s`, not at the working directory: anchored globs stop "
+                      "matching files found under an absolute search root" % (name, show(a_)[:40]), fn=g, loc=cs[0].loc, construct="glob-root")
+        st = [f_ for f_ in facts.fns_in(HA) if f_.kind != "closure" and f_.calls_to(HA + "current_dir")]
+        cd = facts.fn(HA + "current_dir") if facts.has_fn(HA + "current_dir") else None
+        if st and cd is not None and cd.calls_to("std::env::current_dir"):
+            r.ok("root|cwd", "State.cwd = current_dir() (std::env::current_dir, falling back to $PWD)", fn=st[0], nontrivial=False)
+        else:
+            r.bad("root|cwd", "State.cwd is no longer taken from the process working directory", fn=(st[0] if st else None))
     with ctx.rule("C05.NAME", "an entry has no file name only when its path is empty or its final component was examined", floor=3,
                   kind="GUARD") as r:
         from . import c12
